@@ -173,6 +173,11 @@ pub fn stmts(tier: Tier) -> Vec<String> {
         // error handling
         "x = to_int(.a) ?? \"d\"", "x, err = to_int(.a)", ".b, err = to_int(.a)", "x = to_int(.a) ?? to_int(.b) ?? 0", "x = (10 / .a) ?? 0",
         "x, err = 10 / .a", "x.q, err = to_int(.a)", "x = string(.a) ?? 7", "x = array(.a) ?? 7", "x = object(.a) ?? 7", "x = int(.a) ?? null",
+        // infallible assignment whose right side has several possible kinds (the default is then null)
+        "x, err = .a * 2", "x, err = .a + .b", ".b, err = .a - 1", "x, err = .a * .b",
+        // an operand that re-assigns a variable used by a LATER operand of the same expression
+        "y = { x = 0; 10 } / x", "y = (x = 0) / x", "y = { x = x - 1; 10 } / x", "y = { x = \"s\"; 1 } + x", "y = [{ x = null; 1 }, x][1]", "y = { x = false; true } && x",
+        "y = (x = null) || x", "y = { x = {\"b\": 0}; 1 } / x.b", "y = {\"k\": { x = 7; 1 }, \"j\": x}.j",
         // conditionals
         "if .c == true { x = 1 } else { x = \"s\" }", "if .c == true { x = 1 }", "if .c == true { .a = 1 }",
         "if .c == true { .a = \"s\" } else { del(.a) }", "if .c == true { y = [1] } else { y = {\"a\": \"s\"} }", "x = if .c == true { 1 } else { \"s\" }",
@@ -231,7 +236,7 @@ pub fn core_stmts() -> Vec<String> {
         "x = (.a == 1 && { y = \"s\"; true })", "x, err = to_int(.a)", "if .c == true { x = 1 } else { x = \"s\" }", "if .c == true { .a = 1 }",
         "if .c == true { del(.a[0]) }", "if .c == true { x.b = \"n\" }", "y = { x = \"blk\"; 3 }", "del(.a)", "del(.a[0])", "del(.a[-1])", "del(x.b)", "del(x[0])",
         "x = del(.a[0])", "for_each([1]) -> |_i, _v| { x = 0 }", "for_each(x) -> |_i, v| { y = v }", "x = map_values(x) -> |v| { y = v; 1 }", "y = 10 / x",
-        "y = 10 / x.b", "y = x || .s", "if .c == true { return x }", "x = push(x, .a)", "x = merge(x, {\"z\": 1})", ". = {\"a\": [1, \"s\", true]}",
+        "y = 10 / x.b", "y = x || .s", "y = { x = 0; 10 } / x", "x, err = .a * 2", "if .c == true { return x }", "x = push(x, .a)", "x = merge(x, {\"z\": 1})", ". = {\"a\": [1, \"s\", true]}",
     ]
     .iter()
     .map(|s| (*s).to_string())
